@@ -331,3 +331,150 @@ Theorem C12_add_chunk_spec :
           end).
 Proof. exact add_chunk_spec. Qed.
 Print Assumptions C12_add_chunk_spec.
+
+(* ------------------------------------------------------------------------------------------ *)
+(* Translator tie of the container guards, capacities, requests and reference-count calls:
+   translator/effects.py renders the C functions as plans (gen/Gen_effects.v, regenerated from the
+   working tree on every run), Bridge_effects.v proves them equal to the hand-written plans of
+   HPlans.v by automation only, HPlans_proofs.v proves that the operations of H follow those plans.
+   The [C12_code_*] theorems below are about the text generated from the C source of this run. *)
+From Coq Require Import ZArith String.
+From CB Require Import HOps GenLeafTypes HPlans HPlans_proofs Bridge_effects.
+From CBGen Require Import Gen_effects.
+Local Open Scope string_scope.
+Local Open Scope list_scope.
+Local Open Scope N_scope.
+
+Theorem C12_code_array_push_plan : forall definite e al ok, e < 2^64 -> al < 2^64 ->
+  Gcbor_array_push (Z.of_N al) (dst_z definite) (Z.of_N e) ok = array_push_plan definite e al ok.
+Proof. exact bridge_plan_array_push. Qed.
+Theorem C12_code_array_get_plan : forall al dst e i, e < 2^64 -> i < 2^64 ->
+  Gcbor_array_get (Z.of_N al) dst (Z.of_N e) (Z.of_N i) = array_get_plan al dst e i.
+Proof. exact bridge_plan_array_get. Qed.
+Theorem C12_code_array_replace_plan : forall al dst e i, e < 2^64 -> i < 2^64 ->
+  Gcbor_array_replace (Z.of_N al) dst (Z.of_N e) (Z.of_N i) = array_replace_plan al dst e i.
+Proof. exact bridge_plan_array_replace. Qed.
+Theorem C12_code_array_set_plan : forall al dst e i c, e < 2^64 -> i < 2^64 ->
+  Gcbor_array_set (Z.of_N al) dst (Z.of_N e) (Z.of_N i) c = array_set_plan al dst e i c.
+Proof. exact bridge_plan_array_set. Qed.
+Theorem C12_code_map_add_key_plan : forall definite e al ok, e < 2^64 -> al < 2^64 ->
+  G_cbor_map_add_key (Z.of_N al) (dst_z definite) (Z.of_N e) ok = map_add_key_plan definite e al ok.
+Proof. exact bridge_plan_map_add_key. Qed.
+Theorem C12_code_map_add_value_plan : forall al dst e, e < 2^64 ->
+  G_cbor_map_add_value (Z.of_N al) dst (Z.of_N e) = map_add_value_plan al dst e.
+Proof. exact bridge_plan_map_add_value. Qed.
+Theorem C12_code_map_add_plan : forall c0 c1, Gcbor_map_add c0 c1 = map_add_plan c0 c1.
+Proof. exact bridge_plan_map_add. Qed.
+Theorem C12_code_add_chunk_plans : forall cnt cap ok, cnt < 2^64 -> cap < 2^64 ->
+  Gcbor_bytestring_add_chunk (Z.of_N cap) (Z.of_N cnt) ok = add_chunk_plan cnt cap ok /\
+  Gcbor_string_add_chunk (Z.of_N cap) (Z.of_N cnt) ok = add_chunk_plan cnt cap ok.
+Proof. intros cnt cap ok H1 H2. split; [exact (bridge_plan_bytestring_add_chunk cnt cap ok H1 H2) | exact (bridge_plan_string_add_chunk cnt cap ok H1 H2)]. Qed.
+Theorem C12_code_constructor_plans : forall n ok0 ok1, n < 2^64 ->
+  Gcbor_new_definite_array (Z.of_N n) ok0 ok1 = new_definite_array_plan n ok0 ok1 /\
+  Gcbor_new_definite_map (Z.of_N n) ok0 ok1 = new_definite_map_plan n ok0 ok1 /\
+  Gcbor_new_indefinite_array ok0 = new_indefinite_array_plan ok0.
+Proof. intros n ok0 ok1 H. split; [exact (bridge_plan_new_definite_array n ok0 ok1 H) | split; [exact (bridge_plan_new_definite_map n ok0 ok1 H) | exact (bridge_plan_new_indefinite_array ok0)]]. Qed.
+Print Assumptions C12_code_array_push_plan.
+Print Assumptions C12_code_map_add_key_plan.
+Print Assumptions C12_code_add_chunk_plans.
+
+(* H's array_push does what the plan generated from cbor_array_push says: return value, capacity
+   and size afterwards, the allocator requests with their sizes in order, one reference taken
+   exactly when the element is stored, nothing changed on refusal *)
+Theorem C12_code_array_push_followed :
+  forall refuse a x w rc indef data allocated elems rcx nx,
+  wf w ->
+  heap w a = Some (CItem rc (NArr indef data allocated elems)) ->
+  block_inv w data allocated ->
+  heap w x = Some (CItem rcx nx) ->
+  a <> x ->
+  allocated < 2 ^ 64 -> len elems <= allocated ->
+  let p := Gcbor_array_push (Z.of_N allocated) (dst_z (negb indef)) (Z.of_N (len elems))
+                            (grow_ok refuse (nreq w) SZ_PTR allocated) in
+  let elems' := if ret_bool p then elems ++ [x] else elems in
+  exists w' data',
+    array_push refuse a x w = Ret (ret_bool p) w' /\
+    heap w' a = Some (CItem rc (NArr indef data' (fieldN "allocated" p) elems')) /\
+    len elems' = fieldN "end_ptr" p /\
+    heap w' x = Some (CItem (bump (increfs_arg 1 p) rcx) nx) /\
+    trace w' = req_events data (if ret_bool p then Some (next w) else None) (p_reqs p) ++ trace w /\
+    (ret_bool p = false -> same_heap w w').
+Proof. exact code_array_push_followed. Qed.
+Print Assumptions C12_code_array_push_followed.
+
+Theorem C12_code_map_add_key_followed :
+  forall refuse a k w rc indef data allocated pairs rck nk,
+  wf w ->
+  heap w a = Some (CItem rc (NMap indef data allocated pairs)) ->
+  block_inv w data allocated ->
+  heap w k = Some (CItem rck nk) ->
+  a <> k ->
+  allocated < 2 ^ 64 -> len pairs <= allocated ->
+  let p := G_cbor_map_add_key (Z.of_N allocated) (dst_z (negb indef)) (Z.of_N (len pairs))
+                              (grow_ok refuse (nreq w) SZ_PAIR allocated) in
+  let pairs' := if ret_bool p then pairs ++ [(k, None)] else pairs in
+  exists w' data',
+    map_add_key refuse a k w = Ret (ret_bool p) w' /\
+    heap w' a = Some (CItem rc (NMap indef data' (fieldN "allocated" p) pairs')) /\
+    len pairs' = fieldN "end_ptr" p /\
+    heap w' k = Some (CItem (bump (increfs_arg 1 p) rck) nk) /\
+    trace w' = req_events data (if ret_bool p then Some (next w) else None) (p_reqs p) ++ trace w /\
+    (ret_bool p = false -> same_heap w w').
+Proof. exact code_map_add_key_followed. Qed.
+Print Assumptions C12_code_map_add_key_followed.
+
+Theorem C12_code_add_chunk_followed :
+  forall refuse a x w rc text hdr hsz arr cap chunks rcx nx,
+  wf w ->
+  heap w a = Some (CItem rc (NChunked text hdr arr cap chunks)) ->
+  heap w hdr = Some (CData hsz) ->
+  block_inv w arr cap -> arr <> Some hdr ->
+  heap w x = Some (CItem rcx nx) ->
+  a <> x ->
+  cap < 2 ^ 64 -> len chunks <= cap ->
+  let p := (if text then Gcbor_string_add_chunk else Gcbor_bytestring_add_chunk)
+             (Z.of_N cap) (Z.of_N (len chunks)) (grow_ok refuse (nreq w) SZ_PTR cap) in
+  let chunks' := if ret_bool p then chunks ++ [x] else chunks in
+  exists w' arr',
+    add_chunk refuse a x w = Ret (ret_bool p) w' /\
+    heap w' a = Some (CItem rc (NChunked text hdr arr' (fieldN "chunk_capacity" p) chunks')) /\
+    len chunks' = fieldN "chunk_count" p /\
+    heap w' x = Some (CItem (bump (increfs_arg 1 p) rcx) nx) /\
+    trace w' = req_events arr (if ret_bool p then Some (next w) else None) (p_reqs p) ++ trace w /\
+    (ret_bool p = false -> same_heap w w').
+Proof. exact code_add_chunk_followed. Qed.
+Print Assumptions C12_code_add_chunk_followed.
+
+(* cbor_array_get / cbor_array_replace / cbor_array_set against their (hand-written) plans *)
+Theorem C12_array_get_follows_plan :
+  forall a i w rc indef d sz allocated elems dst,
+  heap w a = Some (CItem rc (NArr indef (Some d) allocated elems)) ->
+  heap w d = Some (CData sz) ->
+  (forall e, In e elems -> is_item w e) ->
+  let p := array_get_plan allocated dst (len elems) i in
+  (ret_null p = true ->
+     p_effs p = [] /\
+     exists w', array_get a i w = Ret None w' /\ same_heap w w' /\ trace w' = trace w) /\
+  (ret_null p = false ->
+     p_ret p = RP (PSlot (PField (PArg 0) "data") (Z.of_N i) "") /\
+     p_effs p = [Incref (PSlot (PField (PArg 0) "data") (Z.of_N i) "")] /\
+     exists e rce ne w',
+       nth_error elems (N.to_nat i) = Some e /\ heap w e = Some (CItem rce ne) /\
+       array_get a i w = Ret (Some e) w' /\
+       heap w' e = Some (CItem (wrap64 (rce + len (p_effs p))) ne) /\ trace w' = trace w).
+Proof. exact array_get_follows_plan. Qed.
+Theorem C12_array_set_follows_plan :
+  forall refuse a i v w rc indef data allocated elems dst c,
+  heap w a = Some (CItem rc (NArr indef data allocated elems)) ->
+  let p := array_set_plan allocated dst (len elems) i c in
+  (i = len elems ->
+     p_reqs p = [ReqCall "cbor_array_push" [AP (PArg 0); AP (PArg 2)]] /\ p_ret p = RZ c /\
+     array_set refuse a i v w = array_push refuse a v (w_log (AccR a) w)) /\
+  (i < len elems ->
+     p_reqs p = [ReqCall "cbor_array_replace" [AP (PArg 0); AZ (Z.of_N i); AP (PArg 2)]] /\ p_ret p = RZ c /\
+     array_set refuse a i v w = array_replace a i v (w_log (AccR a) w)) /\
+  (len elems < i ->
+     p_reqs p = [] /\ p_ret p = RZ 0 /\ array_set refuse a i v w = Ret false (w_log (AccR a) w)).
+Proof. exact array_set_follows_plan. Qed.
+Print Assumptions C12_array_get_follows_plan.
+Print Assumptions C12_array_set_follows_plan.
